@@ -6,7 +6,9 @@ full key list after the pass.  Search: removed = exactly {ephemeral kinds} ∪ {
 well-formed timestamp earlier than T}; nothing without expiration, with a future or malformed expiration
 goes; index entries go with the record.  The passes are also run the way the relay runs them — one collector object under
 its periodic loop — with passes that fail mid-way (locked database, failing statement, engine errors, failing queued
-deletions) followed by unobstructed ones, which must be as exact as any other pass.
+deletions) followed by unobstructed ones, which must be as exact as any other pass.  And the same points in time are stored in
+several spellings side by side (JSON string, JSON integer, number with a fraction, strings with blanks, booleans, null): whether an
+event has expired does not depend on the JSON type that carried its timestamp.
 """
 import random
 
@@ -36,15 +38,46 @@ def expirations(ev):
     return [t[1] for t in ev["tags"] if len(t) >= 2 and t[0] == "expiration"]
 
 
+def spelled(v):
+    """the value of an expiration tag as the text it stands for.  NIP-40 writes the timestamp as a JSON string, but JSON has
+    numbers, clients publish them and so does the relay's own test-suite (test_main.test_expiration_tag): the JSON integer n IS
+    the timestamp "n" -- the property speaks of the expiration of an event, not of the JSON type that carried it.  A JSON number
+    with a fraction or an exponent is given its shortest decimal text (which is not a row of digits: see numeric_reading); every
+    other value (strings of course, booleans, null) is taken as it is."""
+    if isinstance(v, bool):
+        return v
+    if isinstance(v, int):
+        return str(v)
+    if isinstance(v, float) and v == v and abs(v) != float("inf"):
+        return repr(v)
+    return v
+
+
+def numeric_reading(v):
+    """values that are not well-formed timestamps and yet denote a number under a reading nobody could call wrong: a JSON number
+    written with a fraction (1700000000.0, 1699999999.5) and the booleans (in Python, the relay's language, True == 1).  The
+    property is not sharp about them, so it grants both outcomes when that number is earlier than the pass (may_collect) and
+    forbids the removal when it is not.  Strings get no such reading (" 1700000000", "1700000000.0", "+1600000000" are malformed:
+    that was settled with the int()-lenient change of round 8)."""
+    if isinstance(v, bool):
+        return int(v)
+    if isinstance(v, float) and v == v and abs(v) != float("inf"):
+        return v
+    return None
+
+
 def should_collect(ev, now):
     if 20000 <= ev["kind"] < 30000:
         return True
-    return any(well_formed_ts(v) and int(v) < now for v in expirations(ev))
+    return any(well_formed_ts(v) and int(v) < now for v in map(spelled, expirations(ev)))
 
 
 def may_collect(ev, now):
-    """the property's 'nothing else': ephemeral, or a well-formed expiration earlier than now"""
-    return should_collect(ev, now)
+    """the property's 'nothing else': ephemeral, or a well-formed expiration earlier than now (or, inside the freedom described
+    at numeric_reading, a fractional number / boolean earlier than now)"""
+    if should_collect(ev, now):
+        return True
+    return any(numeric_reading(v) is not None and numeric_reading(v) < now for v in expirations(ev))
 
 
 def gen_store(rng):
@@ -66,7 +99,7 @@ def string_rule(ev, backend, now):
     """the recorded finding, exactly: expirations are compared as byte strings with str(now) (LMDB: a range walk of the tag
     index from the value "0"; SQL: tags.value < 'now')"""
     hi = str(now).encode()
-    for v in expirations(ev):
+    for v in map(spelled, expirations(ev)):
         if not isinstance(v, str):
             continue
         b = v.encode("utf-8", "surrogatepass")
@@ -78,7 +111,7 @@ def string_rule(ev, backend, now):
 def classify(ev, backend, was_removed=None, now=None):
     """the open class covers an outcome only when it is the one the string comparison produces; any other wrong outcome for an
     odd expiration value is a different violation"""
-    vals = expirations(ev)
+    vals = [spelled(v) for v in expirations(ev)]
     if any(not (well_formed_ts(v) and len(v) == len(str(T))) for v in vals):
         if was_removed is None or was_removed == ((20000 <= ev["kind"] < 30000) or string_rule(ev, backend, now)):
             return "gc-expiration-string-compare-" + backend
@@ -168,6 +201,7 @@ def run_case(report, drv, store, evs, now, tag):
                         "removed": len(removed)})
     report.count("passes_" + store.backend)
     report.count("removed_" + store.backend, len(removed))
+    return before, after
 
 
 def two_pass_case(report, drv, store, rng, tag):
@@ -219,6 +253,121 @@ def two_pass_case(report, drv, store, rng, tag):
     report.case((store.backend, "two-pass", tag, repr([expirations(e) for e in evs_all])), nontrivial=len(after) < len(evs_all),
                 sample={"backend": store.backend, "two_pass": True, "stored": len(evs_all), "left": len(after)})
     report.count("two_pass_" + store.backend)
+
+
+# ---- one timestamp, many spellings -----------------------------------------------------------------------------------------
+#
+# The expiration of an event reaches the collectors through a text index (the `tags` table on SQL, the tag index of the LMDB
+# keyspace), but it reaches the relay as whatever JSON value the client put into the tag: a string (NIP-40), a number (what many
+# clients and the relay's own tests publish), now and then something else.  Whether an event has expired must not depend on the
+# JSON type that carried the timestamp: the stores below hold the same few points in time in several spellings side by side -- the
+# string, the JSON integer, the number with a fraction, strings with blanks / sign / leading zero / ".0", booleans, null, next to a
+# second expiration tag of another spelling and to numbers under other indexed tag names -- on every kind class, and each pass is
+# judged by the one oracle of this file (run_case: removed = exactly ephemeral + well-formed-expired, index entries included)
+# plus a clause that needs no oracle at all: events that differ only in how the same timestamp is spelled (string / JSON integer)
+# share their fate on each backend.  The two backends' answers on the same events are compared as well and counted.
+
+SPELL_KINDS = [1, 1, 1, 1, 7, 5, 4, 0, 10002, 30000, 40000, 19999, 20000, 29999]
+
+
+def spell_numbers(now):
+    """points in time around the pass and T, long past, far future (also where the recorded string comparison goes wrong)"""
+    return [now - 1, now - 1, now, now + 1, now - 2, T - 1000, T + 1000, 1699999999, 1600000000, 1, 999, 0, 17000000000,
+            99999999999, -5]
+
+
+def spell(rng, n):
+    """one spelling of the number n (or a value that is no number at all); the first two are the ones clients really send"""
+    k = rng.choice(["str", "int", "str", "int", "int", "float", "half", "blank", "text", "bool", "null"])
+    if k == "str":
+        return str(n)
+    if k == "int":
+        return n
+    if k == "float":
+        return float(n)
+    if k == "half":
+        return n + rng.choice([0.5, -0.5])
+    if k == "blank":
+        return rng.choice([" %d", "%d ", "\t%d", "%d\n", " %d "]) % n
+    if k == "text":
+        return rng.choice(["%d.0", "+%d", "0%d", "%d.5", "%de0"]) % n
+    if k == "bool":
+        return rng.choice([True, False])
+    return None
+
+
+def gen_spelling_store(rng, now):
+    evs = []
+    for n in rng.sample(spell_numbers(now), rng.randint(2, 4)):
+        # the same number as a string and as a JSON integer on the same kind (the pair the no-oracle clause needs), then others
+        kind = rng.choice(SPELL_KINDS[:6])
+        forms = [(kind, str(n)), (kind, n)] + [(rng.choice(SPELL_KINDS), spell(rng, n)) for _ in range(rng.randint(0, 3))]
+        rng.shuffle(forms)
+        for kind, v in forms:
+            e = gen.gen_event(rng, authors=AUTH, kinds=[kind], times=[gen.T0, gen.T0 + 1, gen.T0 + 2])
+            e["tags"] = [t for t in e["tags"] if t and t[0] not in ("expiration", "d", "e")]
+            r = rng.random()
+            if r < 0.15:
+                # a second expiration tag in another spelling, before or after
+                e["tags"].insert(rng.randrange(len(e["tags"]) + 1), ["expiration", spell(rng, rng.choice(spell_numbers(now)))])
+            elif r < 0.3:
+                # a number under another indexed tag name: its index entry has to go with the record like any other
+                e["tags"].append([rng.choice(["t", "x", "delegation"]), rng.choice([n, now - 1, 7, 2.5])])
+            e["tags"].insert(rng.randrange(len(e["tags"]) + 1), ["expiration", v])
+            e["id"] = "%02x" % len(evs) + e["id"][2:]
+            evs.append(e)
+    return evs
+
+
+def spelling_case(report, drv, stores, evs, now, tag):
+    fate = {}
+    by_id = {e["id"]: e for e in evs}
+    for st in stores:
+        before, after = run_case(report, drv, st, evs, now, ("spelling", tag))
+        payload = {"backend": st.backend, "events": evs, "now": now}
+        if getattr(st, "gc_overlap", False):
+            payload["overlap"] = True
+        # same timestamp, same kind class, spelled as a string or as a JSON integer: same fate
+        groups = {}
+        for i in sorted(before):
+            ev = by_id.get(i)
+            vals = expirations(ev) if ev else []
+            if ev is None or len(vals) != 1 or 20000 <= ev["kind"] < 30000:
+                continue
+            v = vals[0]
+            if (isinstance(v, int) and not isinstance(v, bool)) or well_formed_ts(v):
+                groups.setdefault(spelled(v), []).append(i)
+        for text, ids in sorted(groups.items()):
+            if len({type(expirations(by_id[i])[0]) for i in ids}) < 2:
+                continue
+            report.count("spelling_pairs_" + st.backend)
+            gone = [i for i in ids if i not in after]
+            if gone and len(gone) != len(ids):
+                kept = [i for i in ids if i in after]
+                report.property_failure(
+                    "%s: GC at %d removed %s (expiration %r) and kept %s (expiration %r): the same timestamp, spelled as a JSON "
+                    "string and as a JSON number" % (st.backend, now, gone[0][:8], expirations(by_id[gone[0]]), kept[0][:8],
+                                                     expirations(by_id[kept[0]])), payload, None)
+        if not getattr(st, "gc_overlap", False):
+            fate[st.backend] = (before, after)
+    for ev in evs:
+        for v in expirations(ev):
+            report.count("spelling_value_" + ("null" if v is None else type(v).__name__))
+    if len(fate) == 2:
+        # the two backends on the same events (ephemeral kinds are never stored on LMDB): counted; a difference on an event
+        # whose fate the property determines is a failure of one of the two and has been reported above
+        (b1, a1), (b2, a2) = fate["kv"], fate["sql"]
+        for i in sorted(b1 & b2):
+            ev = by_id.get(i)
+            if ev is None:
+                continue
+            if (i in a1) == (i in a2):
+                report.count("spelling_backends_agree")
+            elif should_collect(ev, now) == may_collect(ev, now) and classify(ev, "kv", i not in a1, now) is None \
+                    and classify(ev, "sql", i not in a2, now) is None:
+                report.count("spelling_backends_differ_on_a_determined_event")
+            else:
+                report.count("spelling_backends_differ_within_freedom_or_recorded_class")
 
 
 # ---- passes that fail mid-way, and the passes after them ---------------------------------------------------------------------
@@ -565,7 +714,14 @@ def run(report, tier, seed):
         "connection of a file-backed database, the statement failing before / after the engine ran it; LMDB: the read transaction "
         "refused, a cursor positioning or the k-th step of a walk raising, the k-th put/delete of the queued deletions raising in "
         "the writer), late arrivals, then two or three unobstructed passes of the same object: each pass removes nothing else, "
-        "after the last one everything due is gone, index rows included; non-trivial = the obstacle was reached and something was due")
+        "after the last one everything due is gone, index rows included; non-trivial = the obstacle was reached and something was due; "
+        "one timestamp in many spellings: stores of 4-20 events holding 2-4 points in time (around the pass, long past, far future) "
+        "each as a JSON string AND as a JSON integer on the same kind, plus numbers with a fraction, strings with blanks / sign / "
+        "leading zero / '.0', booleans, null, a second expiration tag of another spelling, numbers under other indexed tag names, on "
+        "kinds 1/7/5/4/0/10002/30000/40000/19999/20000/29999, both backends (SQL also file-backed with an overlapping reader): the "
+        "JSON integer n is the timestamp 'n' (same oracle), string and integer spellings of one timestamp share their fate on each "
+        "backend, fractional numbers and booleans earlier than the pass may go or stay (granted freedom), the two backends' "
+        "answers on the same events are counted")
     report.assumptions += ["clock: `time` of the storage module replaced by a constant",
                            "LMDB: ephemeral kinds are never stored through add_event (they are only broadcast)"]
     try:
@@ -590,6 +746,10 @@ def run(report, tier, seed):
         for i in range(16 if tier == "quick" else 400):
             for st in (stores[0], stores[1], lockable):
                 failed_pass_case(report, st, gen_failed_pass_plan(rng, st), i)
+        # one timestamp, many spellings (after the other families, so that their draws are what they were)
+        for i in range(40 if tier == "quick" else 1000):
+            now = T + rng.choice([-1, 0, 0, 1])
+            spelling_case(report, drv, stores[:2] + ([overlapped] if i % 4 == 0 else []), gen_spelling_store(rng, now), now, i)
     finally:
         for st in stores:
             st.close()
